@@ -80,7 +80,7 @@ PROPS = {
                  "evaluation = one executed IR node; distinct non-trivial = distinct (query, instance shape) pairs that executed."),
         "assumptions": COMMON_ASSUME + ["SQLite executes the PostgreSQL rendering with PostgreSQL meaning inside the portable fragment"],
         "quick": {"shards": 16, "cases": 1500, "watchdog_s": 1500, "require": {"evaluations": 150000, "executed_queries": 15000, "node:Join:LeftOuter": 1000, "node:Set:Union": 500, "node:Reduce": 5000}},
-        "thorough": {"shards": 16, "cases": 15000, "watchdog_s": 14400, "require": {"evaluations": 5000000}},
+        "thorough": {"shards": 16, "cases": 40000, "watchdog_s": 14400, "require": {"evaluations": 5000000}},
     },
     "C14": {
         "technique": "runtime monitoring: same staged executions as C07; every field flagged UNIQUE / PRIMARY KEY at every IR node must have pairwise distinct non-NULL values",
@@ -89,7 +89,7 @@ PROPS = {
         "rule": ("as C07 with targeted uniqueness queries; evaluation = one executed IR node; distinct non-trivial = distinct executed (query, instance shape) pairs"),
         "assumptions": COMMON_ASSUME + ["base tables honour their own UNIQUE / PRIMARY KEY flags (checked before every case)"],
         "quick": {"shards": 16, "cases": 1500, "watchdog_s": 1500, "require": {"evaluations": 150000, "unique_columns_checked": 30000, "unique_in:Reduce": 3000, "unique_in:Join:Inner": 2000}},
-        "thorough": {"shards": 16, "cases": 15000, "watchdog_s": 14400, "require": {"evaluations": 5000000}},
+        "thorough": {"shards": 16, "cases": 40000, "watchdog_s": 14400, "require": {"evaluations": 5000000}},
     },
     "C08": {
         "technique": "runtime monitoring: differential execution on SQLite of the original SQL text and of the SQL rendered from the parsed relation (same engine on both sides), comparing column count/order/names, row multisets, ordering and LIMIT containment",
